@@ -129,4 +129,9 @@ static void h_print_handlers(FILE *out) {
     fprintf(out, "\"");
 }
 
+
+/* the value errno has when the library is entered: part of the history a call must not depend on.
+ * Cycles through 0, ENOENT and EILSEQ by case id (a library path that reads errno without having set it
+ * itself sees the stale value in two of three runs). */
+#define H_ERRNO_PRE(id) ((id) % 3 == 0 ? 0 : (id) % 3 == 1 ? ENOENT : EILSEQ)
 #endif
